@@ -1078,9 +1078,9 @@ mod gen {
         let mut f = std::io::BufWriter::new(std::fs::File::create(path)?);
         let thorough = tier == "thorough";
         // n = number of random route sets; the small-scope families are always included
-        let fam_len = if thorough { 6 } else { 4 };
-        let rnd_len = if thorough { 6 } else { 4 };
-        let deep_len = if thorough { 9 } else { 7 };
+        let fam_len = if thorough { 5 } else { 4 };
+        let rnd_len = if thorough { 5 } else { 4 };
+        let deep_len = if thorough { 8 } else { 7 };
         let fam_paths = all_paths(fam_len);
         let rnd_paths = all_paths(rnd_len);
         let mut idx = 0;
@@ -1095,7 +1095,7 @@ mod gen {
         }
         // a few route sets against the deep exhaustive path set
         let deep = all_paths(deep_len);
-        let deep_sets = if thorough { 6 } else { 2 };
+        let deep_sets = if thorough { 3 } else { 2 };
         for k in 0..deep_sets {
             let d = if k == 0 {
                 // the F-C14-1 shape with a param and a multi-byte static
